@@ -127,7 +127,10 @@ impl RedirectionLoop {
             // If the url cannot be parsed, let's treat it as a relative Url.
             // Otherwise, we check if the corresponding domain is registered in the project.
             if let Ok(url) = Url::parse(&current_url) {
-                if !project_domains.is_empty() && !project_domains.contains(&url.host_str().unwrap().to_string()) {
+                // An url without host (mailto:, data:, ...) is not on a domain of the project
+                let host = url.host_str().unwrap_or_default().to_string();
+
+                if !project_domains.is_empty() && !project_domains.contains(&host) {
                     // The current url target a domain that is not registered in the project.
                     // So we consider there is no redirection loop here.
                     break;
